@@ -37,6 +37,7 @@ RULE += (' Also: generator-based coroutines as awaitables of await_each; non-awa
 RULE += (' Also: any_iter over sources that are falsy although they provide items.')
 RULE += (' Also: await_each over a list extended by the consumer while it is iterated.')
 RULE += (' Also: await_each over a lazy input that keeps none of its awaitables (addresses are reused).')
+RULE += (' Also: a queue (deque) handed to await_each and filled further before the first request.')
 ASSUMPTIONS = ["direct specification oracle (no stdlib twin exists for these helpers)"]
 EXHAUSTIVE = {"quick": True, "thorough": True}
 MAX_SHARDS = 8
@@ -64,6 +65,7 @@ def cases(tier, seed, shard, nshards):
                         if cont == "list":
                             yield {"kind": "await_each", "n": n, "steps": steps, "susp": susp, "cont": "worklist"}
                             yield {"kind": "await_each", "n": n, "steps": steps, "susp": susp, "cont": "fresh"}
+                            yield {"kind": "await_each", "n": n, "steps": steps, "susp": susp, "cont": "queue_filled_later"}
                         for aw_kind in ("legacy", "mixed", "bad"):
                             yield {"kind": "await_each", "n": n, "steps": steps, "susp": susp, "cont": cont, "aw_kind": aw_kind}
     for n in range(0, 6):
@@ -565,10 +567,19 @@ def run_await_each(case, stats):
         # reaches them): the caller's list is iterated live, not a snapshot of it
         arg = coros[:(n + 1) // 2]
         later = coros[(n + 1) // 2:]
+    late = []
+    if case["cont"] == "queue_filled_later":
+        # a queue (deque) handed over while it is still being filled: the stream is created first, the rest of the work
+        # is queued BEFORE the consumer asks for anything - iteration begins with the first request, not with the call
+        import collections
+        arg = collections.deque(coros[:(n + 1) // 2])
+        late = coros[(n + 1) // 2:]
     got = []
 
     async def main():
         it = A.await_each(arg)
+        if late:
+            arg.extend(late)
         for step in range(case["steps"]):
             events.append(("step", step))
             if step == 1 and later:
